@@ -28,6 +28,7 @@ import Glom.Lemmas.C05ReadTree
     c05_text_clause3   the target in force at the innermost failing spec's line is the one it received
     c05_text_clause4   every failed branch of a call on the path: its spec line and its error text
     c05_text_clause5   every top-level `Spec:` line shows a call that raised / a step of a chain that raised
+    c05_text_clause6   every `+ Spec:` line (a spec shown with branches) shows a call that raised: no stale branches
     c05_text_check     all of them: `checkC05 (events t) errText e (traceText (events t) errText e width)`
     c05_text_lift_partial   clauses 1, 2, 4, 5 without the hypotheses of clause 3
 
@@ -278,6 +279,64 @@ theorem c05_text_clause3 (t : Tree) (hwf : t.wf = true) (errText : Nat → Str) 
   rw [go_eq, traceText_toList]
   exact List.any_eq_true.mpr ⟨x, hx1, hx2⟩
 
+/-! ### clause 6 -/
+
+/-- **clause 6 of `checkC05` holds of the model's text**: every `+ Spec:` line — a spec shown with
+    branches below it — shows a call that RAISED.  What failed inside a spec that then completed
+    normally (a Switch / Match-dict key that matched through a later alternative, a completed chain
+    step) is forgiven by `chain_child`: such a spec never shows branches, so no abandoned
+    alternative leaks into the trace of a later error.
+    By `c05_frames`: a frame handed on by `chain_child` has CHILD_ERRORS ⊆ [its LAST_CHILD_SCOPE]
+    (shown linearly); every other rendered frame has a CUR_ERROR, which is its call's own outcome.
+    Hypotheses: spec and target texts have no line break; the lines of error texts are quiet. -/
+theorem c05_text_clause6 (t : Tree) (hwf : t.wf = true) (errText : Nat → Str) (width : Nat)
+    (hrepr : ∀ c, c ∈ callsOf (events t) → NoNL c.spec ∧ NoNL c.target) (herr : ErrQuiet errText) :
+    clause6 (callsOf (events t)) (traceLines t errText width) = true := by
+  have hwf' := hwf
+  simp only [Tree.wf, Bool.and_eq_true] at hwf'
+  obtain ⟨hc, ho⟩ := hwf'
+  have hren := renderable_top t hc
+  have hfs := frames_one_line t hc hrepr
+  have hsz : 1 < 1 + t.root.size := by simp [Tree.root, Kids.size]; omega
+  unfold clause6 traceLines
+  rw [traceText_toList]
+  simp only [List.all_eq_true, List.any_eq_true, Bool.and_eq_true]
+  intro shown hshown
+  obtain ⟨p, hp, hbne, f, hf, rfl⟩ := PLT_mem_shown (replay (events t)) errText t.err width hfs herr _ 1 0 none true hren shown hshown
+  -- the root call's frame has a CUR_ERROR (the root error), so every rendered frame has one
+  have hroot : (((replay (events t))[1]?).bind (·.curError)).isSome = true := by
+    rw [(replay_frames t hc).2 1 (by omega)]
+    simp [frameAt, Tree.root, Kids.startsChained]
+  have hcur := shownRows_cur t hc _ 1 0 (by omega) hsz hroot p hp
+  have hge := shownRows_frame_ge t hc _ 1 0 (by omega) hsz p hp
+  rw [hf] at hcur
+  simp only [Option.bind_some] at hcur
+  -- the row's branches are those of its frame
+  have hbr : p.2.branches = branchesOf (replay (events t)) p.2.frame := by
+    have key : ∀ (fuel h d : Nat) (q : Nat × Row), q ∈ shownRows (replay (events t)) fuel h d →
+        q.2.branches = branchesOf (replay (events t)) q.2.frame := by
+      intro fuel
+      induction fuel with
+      | zero => intro h d q hq; simp [shownRows] at hq
+      | succ fuel ih =>
+        intro h d q hq
+        rw [shownRows_succ] at hq
+        obtain ⟨r, hr, hq⟩ := List.mem_flatMap.mp hq
+        rcases List.mem_cons.mp hq with hq | hq
+        · subst hq; exact unpack_branches _ h r hr
+        · obtain ⟨b, _, hq⟩ := List.mem_flatMap.mp hq
+          exact ih b (d + 1) q hq
+    exact key _ 1 0 p hp
+  have hfa : frameAt 0 none 1 t.root p.2.frame = some f := by
+    rw [← (replay_frames t hc).2 p.2.frame (by omega)]; exact hf
+  rw [hbr] at hbne
+  simp only [branchesOf, hf] at hbne
+  obtain ⟨c, hcm, hidx, hres, hs⟩ := frameAt_branching_raised t.root none 0 none 1 p.2.frame f hfa hbne hcur
+  refine ⟨c, by rw [callsOf_events]; exact hcm, ?_, hres⟩
+  unfold specShown
+  rw [hs.1, hs.2.2.2]
+  exact showsValue_formatValue _ _ _
+
 /-! ### the clauses together -/
 
 /-- **THE LIFT: the text the model renders for a well-formed evaluation tree satisfies `checkC05`**
@@ -290,7 +349,7 @@ theorem c05_text_clause3 (t : Tree) (hwf : t.wf = true) (errText : Nat → Str) 
       * `htid`   the identity of a target determines its text (`TidOK`);
       * `hU`     no call entered after the innermost failing call has a spec that, as rendered (at
                  a depth it can be rendered at), reads as the innermost failing spec.
-    `hrepr` is needed for clauses 1, 2, 4, 5 (`c05_text_needs_one_line`), `herr` for 3 and 5
+    `hrepr` is needed for clauses 1, 2, 4, 5 (`c05_text_needs_one_line`), `herr` for 3, 5 and 6
     (`c05_text_needs_label_free`, `c05_text_needs_quiet_errors`), `htid` and `hU` for clause 3 only
     (`c05_text_needs_tid`, `c05_text_needs_distinct_spec`). -/
 theorem c05_text_check (t : Tree) (hwf : t.wf = true) (errText : Nat → Str) (width : Nat)
@@ -322,8 +381,9 @@ theorem c05_text_check (t : Tree) (hwf : t.wf = true) (errText : Nat → Str) (w
     ⟨frames_one_line t hc hrepr, herr, htid, hU inner hinner⟩
   have h4 := c05_text_clause4 t hwf errText width (fun c hc => (hrepr c hc).1)
   have h5 := c05_text_clause5 t hwf errText width hrepr herr.labelFree
-  unfold traceLines at h1 h2 h3 h4 h5
-  rw [h1, h2, h3, h4, h5]
+  have h6 := c05_text_clause6 t hwf errText width hrepr herr
+  unfold traceLines at h1 h2 h3 h4 h5 h6
+  rw [h1, h2, h3, h4, h5, h6]
   rfl
 
 /-- **the lift without the hypotheses of clause 3**: clauses 1, 2, 4 and 5 hold of the model's text as
@@ -333,7 +393,8 @@ theorem c05_text_lift_partial (t : Tree) (hwf : t.wf = true) (errText : Nat → 
     (hrepr : ∀ c, c ∈ callsOf (events t) → NoNL c.spec ∧ NoNL c.target) (herr : ErrLabelFree errText) :
     ∃ inner, (spine (callsOf (events t)) t.err).getLast? = some inner ∧
       clausesC05 (events t) errText t.err (traceText (events t) errText t.err width) =
-        [true, true, clause3 inner (traceLines t errText width), true, true] := by
+        [true, true, clause3 inner (traceLines t errText width), true, true,
+         clause6 (callsOf (events t)) (traceLines t errText width)] := by
   have hroot : ∃ root, (callsOf (events t)).head? = some root := by
     rw [callsOf_events]; simp [callsK, Tree.root]
   obtain ⟨root, hroot⟩ := hroot
@@ -367,7 +428,7 @@ def nlTree : Tree := ⟨ii "a\nb" "{}", .nil, 1⟩
 theorem c05_text_needs_one_line :
     nlTree.wf = true ∧
     clausesC05 (events nlTree) (fun _ => "E".toList) 1 (traceText (events nlTree) (fun _ => "E".toList) 1 80) =
-      [true, false, false, true, false] := by
+      [true, false, false, true, false, true] := by
   decide +kernel
 
 /-- `glom({}, Coalesce('x'))` (Props/C05Spine `oneBranchTree`) where the text of the caught error has
@@ -378,7 +439,7 @@ theorem c05_text_needs_label_free :
     labelErrTree.wf = true ∧
     clausesC05 (events labelErrTree) (fun e => if e = 1 then "E: x\n - Spec: zzz".toList else "F".toList) 2
       (traceText (events labelErrTree) (fun e => if e = 1 then "E: x\n - Spec: zzz".toList else "F".toList) 2 80) =
-      [true, true, true, true, false] := by
+      [true, true, true, true, false, true] := by
   decide +kernel
 
 /-- a chain `(p, S)` whose second step has the same spec text `S` as the call itself, a different
@@ -394,7 +455,7 @@ def sameSpecTree : Tree :=
 theorem c05_text_needs_distinct_spec :
     sameSpecTree.wf = true ∧
     clausesC05 (events sameSpecTree) (fun _ => "E".toList) 2
-      (traceText (events sameSpecTree) (fun _ => "E".toList) 2 80) = [true, true, false, true, true] := by
+      (traceText (events sameSpecTree) (fun _ => "E".toList) 2 80) = [true, true, false, true, true, true] := by
   decide +kernel
 
 /-- a chain whose second step receives a target with another text but the same identity: no
@@ -409,7 +470,7 @@ def sameTidTree : Tree :=
 theorem c05_text_needs_tid :
     sameTidTree.wf = true ∧
     clausesC05 (events sameTidTree) (fun _ => "E".toList) 9
-      (traceText (events sameTidTree) (fun _ => "E".toList) 9 80) = [true, true, false, true, true] := by
+      (traceText (events sameTidTree) (fun _ => "E".toList) 9 80) = [true, true, false, true, true, true] := by
   decide +kernel
 
 /-- two branches; the text of the error that ended the first has a line that reads as a `Target:`
@@ -424,7 +485,43 @@ theorem c05_text_needs_quiet_errors :
     targetErrTree.wf = true ∧
     clausesC05 (events targetErrTree) (fun e => if e = 1 then "E\n - Target: Z".toList else "F".toList) 2
       (traceText (events targetErrTree) (fun e => if e = 1 then "E\n - Target: Z".toList else "F".toList) 2 80) =
-      [true, true, false, true, true] := by
+      [true, true, false, true, true, true] := by
+  decide +kernel
+
+/-! ### clause 6 is what `chain_child`'s forgiving is for -/
+
+/-- `_glom` / `chain_child` with the forgiving left out: a frame handed on by `chain_child` keeps its
+    CHILD_ERRORS (C05-s10: the `del …[CHILD_ERRORS][:]` moved out of `chain_child` into the tuple
+    handler, so that Switch and the Match-dict handler no longer forgive) -/
+def stepNoForgive (s : RState) : Ev → RState
+  | .enter parent flagged spec target tid tlen slen =>
+    let fs0 := if flagged then modFrame s.frames parent (fun p => { p with noPy := true }) else s.frames
+    let id := fs0.size
+    let fs1 := fs0.push { spec, target, tid, tlen, slen, up := parent }
+    let fs2 := modFrame fs1 parent (fun p => { p with lastChild := some id })
+    { frames := fs2, stack := id :: s.stack }
+  | e => step s e
+
+/-- `glom({'b': 1}, Switch([(Or('a', 'b'), 'zz')]))`: the key `Or('a', 'b')` matches through its second
+    alternative (`'a'` failed, error 1, recovered), then the value `'zz'`, chained onto the key, fails
+    with the root error 2 -/
+def switchKeyTree : Tree :=
+  ⟨ii "Switch([(Or('a', 'b'), 'zz')])" "{'b': 1}",
+   .cons false (ii "Or('a', 'b')" "{'b': 1}")
+     (.cons false (ii "'a'" "{'b': 1}") .nil (some 1) (.cons false (ii "'b'" "{'b': 1}") .nil none .nil)) none
+     (.cons true (ii "'zz'" "{'b': 1}") .nil (some 2) .nil),
+   2⟩
+
+/-- **without the forgiving the trace shows a stale branch and clause 6 fails; with it the text is
+    the linear descent Switch → key → value and every clause holds** -/
+theorem c05_stale_branch_counterexample :
+    switchKeyTree.wf = true ∧
+    clausesC05 (events switchKeyTree) (fun _ => "E".toList) 2
+      (traceText (events switchKeyTree) (fun _ => "E".toList) 2 80) = [true, true, true, true, true, true] ∧
+    (let fs := ((events switchKeyTree).foldl stepNoForgive { frames := #[rootFrame] }).frames
+     let text := String.ofList (formatTrace fs (fun _ => "E".toList) 2 80 (fs.size + 2) 1 0 none true)
+     text = " - Target: {'b': 1}\n - Spec: Switch([(Or('a', 'b'), 'zz')])\n + Spec: Or('a', 'b')\n |\\ Spec: 'a'\n |X E\n |\\ Spec: 'zz'" ∧
+     clausesC05 (events switchKeyTree) (fun _ => "E".toList) 2 text = [true, true, true, true, true, false]) := by
   decide +kernel
 
 /-! ### non-vacuity -/
@@ -445,7 +542,7 @@ def exTree2 : Tree :=
 
 example : exTree2.wf = true := by decide
 example : clausesC05 (events exTree2) (fun e => ("E" ++ toString e).toList) 3
-    (traceText (events exTree2) (fun e => ("E" ++ toString e).toList) 3 60) = [true, true, true, true, true] := by
+    (traceText (events exTree2) (fun e => ("E" ++ toString e).toList) 3 60) = [true, true, true, true, true, true] := by
   decide +kernel
 example : traceText (events exTree2) (fun e => ("E" ++ toString e).toList) 3 60 =
     " - Target: {'a': 1}\n - Spec: ('a', Coalesce('x', ('b', 'c')))\n - Spec: 'a'\n - Target: 1\n + Spec: Coalesce('x', ('b', 'c'))\n |\\ Spec: 'x'\n |X E1\n |\\ Spec: ('b', 'c')\n || Spec: 'b'\n || Spec: 'c'\n |X E2" := by
